@@ -4,7 +4,7 @@
    regenerated SlskGen.CharTable.  Paths are lists of components (each a list of characters),
    relative to a root the harness chooses.
 
-   This is the model of the REPAIRED code (fixes F04 F05 F27):
+   This is the model of the REPAIRED code (fixes F04 F05 F27 F29):
    * a SharedDirectory object is a [dobj] with a unique [did];
    * a SharedItem is an [item]; its [oid] is the identity of the SharedDirectory object it points
      at (item.shared_directory) and [opath] that object's (immutable) path.  Python equality/hash of
@@ -307,10 +307,19 @@ Definition load_entry (s : state) (e : entry) : state :=
       | None => add_raw s p alias m us
       end
   end.
+(* the new list of load_from_settings: the directory of every entry, once ("if shared_directory not in new_shared_directories") *)
+Fixpoint keep_dirs (ds : list dobj) (es : list entry) (acc : list dobj) : list dobj :=
+  match es with
+  | [] => acc
+  | e :: r =>
+      match find_listed (e_path e) ds with
+      | Some d => keep_dirs ds r (if existsb (fun k => eqb_path (dpath k) (dpath d)) acc then acc else acc ++ [d])
+      | None => keep_dirs ds r acc
+      end
+  end.
 Definition load_raw (s : state) (es : list entry) : state :=
   let s1 := fold_left load_entry es s in
-  let keep := flat_map (fun e : entry => match find_listed (e_path e) (listed s1) with Some d => [d] | None => [] end) es in
-  rebuild (mkState keep (keys s1) (indexed s1) (next_id s1)).
+  rebuild (mkState (keep_dirs (listed s1) es []) (keys s1) (indexed s1) (next_id s1)).
 
 Definition step_raw (s : state) (o : op) : state :=
   match o with
